@@ -31,8 +31,12 @@ def run(tier: str) -> int:
         or e in (("sat", "none"), ("eval", "x", 9, "none"), ("eval", "x", 2, "none"), ("min", "x", "u", "none"), ("max", "x", "s", "none"), ("min", "x", "s", "y<u2"), ("sol", "x", 5, "none"), ("beval", "x,y", 9, "none"))
     ]
     ev_unsat = [("add", "x+y==5"), ("add", "y==x"), ("add", "x<u5"), ("sol", "x", 5, "none"), ("sol", "x", 0, "y<u2"), ("sat", "none"), ("eval", "x", 1, "none"), ("min", "x", "u", "none"), ("sat", "x==6"), ("branch",), ("pickle",), ("simplify",)]
+    # optimum-cutting: every add removes exactly one extreme value, so a stale "exhausted" flag or a leftover
+    # cached model answers min / max wrongly afterwards
+    ev_cut = [("add", k) for k in ("x!=3", "x!=7", "x!=4", "x!=0", "x<u5")] + [(op, "x", sg, "none") for op in ("min", "max") for sg in ("u", "s")] + [("eval", "x", 2, "none"), ("eval", "x", 9, "none")]
     if tier == "quick":
         plan = [
+            ("Solver", {}, ev_cut, 4, 2, "cut4"),
             ("Solver", {}, ev_unsat, 4, 3, "unsat4"),
             ("Solver", {}, H.default_events(uni, "small"), 3, 2, ""),
             ("SolverCacheless", {}, ev_small, 4, 2, "small4"),
@@ -40,6 +44,8 @@ def run(tier: str) -> int:
         ]
     else:
         plan = [
+            ("Solver", {}, ev_cut, 5, 3, "cut5"),
+            ("SolverCacheless", {}, ev_cut, 4, 3, "cut4"),
             ("Solver", {}, ev_unsat, 6, 3, "unsat6"),
             ("SolverCacheless", {}, ev_unsat, 5, 3, "unsat5"),
             ("Solver", {}, ev_full, 3, 3, ""),
